@@ -4,8 +4,24 @@ C01 — Spec: the source-level meaning of a program, as a store-passing environm
 interpreter over the AST (DESIGN.md C01 "Spec.Sem").  Lexical scoping with mutable cells,
 heap references for lists, left-to-right evaluation, short-circuit `&&`/`||`, every loop
 form with break/continue as control signals, functions with default arguments and implicit
-return, print log.  Total: recursion on explicit fuel; every theorem about it is stated
-for every fuel.  Core Lean only.
+return, print log, raised errors and error values (`error`, `try`), `defer`, pipes, set
+literals, map literals with index / assignment / `in`, string index and slice by rune.
+Total: recursion on explicit fuel; every theorem about it is stated for every fuel.
+Core Lean only.
+
+Errors.  A failing evaluation ends in `Sig.err cls` (an error raised by the runtime: only its
+class is modelled, `errz`: "type", "eval", "args", "index", …; "panic" = a Go panic recovered at
+the top of the run) or in `Sig.uerr msg` (an error raised by the script's own `error(msg)`:
+class "error", message known).  `try` can catch every class except "eval", "args" (errz:
+`IsFatal`) and "panic" (a Go panic passes through `builtins.Try` and is recovered only by
+`vm.Run`).  A caught error becomes the VALUE `Val.err cls msg`.
+
+Defer.  `defer f(args)` evaluates `f` and the arguments at the statement and records the call
+in the running activation (`St.defers`, most recent first).  When the function's outcome is
+known — a value or an error of any class — the recorded calls run most-recent-first; their
+results are discarded; an error in one of them replaces the outcome (except that nothing
+replaces a panic), and a PANIC inside a deferred call abandons the activation's remaining
+deferred calls (Go: the `defer` closure of `vm.callFunction` that runs them is itself unwound).
 -/
 namespace Risor.C01
 
@@ -17,7 +33,51 @@ inductive Val where
   | list (ref : Nat)
   | fn (id : Nat)
   | builtin (name : String)
+  | err (cls : String) (msg : Option String)   -- an error VALUE (not raised); `msg` is known for script-made errors
+  | set (ref : Nat)        -- heap entry: the items, distinct, sorted by hash key (`Set.SortedItems`)
+  | map (ref : Nat)        -- heap entry: key, value, key, value, … sorted by key (`Map.SortedKeys`)
   deriving Repr, DecidableEq, Inhabited
+
+/-- `object.HashKey` of the hashable values the model knows: type name, int part, string part -/
+abbrev HKey := String × Int × String
+
+/-- the order of `Set.SortedItems`: type name, then int value, then string value -/
+def keyLt (a b : HKey) : Bool :=
+  if a.1 != b.1 then a.1 < b.1 else if a.2.1 != b.2.1 then a.2.1 < b.2.1 else a.2.2 < b.2.2
+
+/-- insert `v` (hash key `k`) into a list sorted by hash key; an item with the same key is replaced -/
+def insertByKey {α : Type} (key : α → Option HKey) (v : α) (k : HKey) : List α → List α
+  | [] => [v]
+  | x :: rest =>
+    match key x with
+    | some kx => if kx == k then v :: rest else if keyLt k kx then v :: x :: rest else x :: insertByKey key v k rest
+    | none => x :: insertByKey key v k rest
+
+/-- the items of a set literal; `none` when an item is not hashable -/
+def mkSetItems {α : Type} (key : α → Option HKey) (vs : List α) : Option (List α) :=
+  vs.foldlM (fun acc v => (key v).map (fun k => insertByKey key v k acc)) []
+
+/-- lookup in a map entry list (key, value, key, value, …) -/
+def mapGet {α : Type} (str? : α → Option String) (k : String) : List α → Option α
+  | kx :: v :: rest => if str? kx == some k then some v else mapGet str? k rest
+  | _ => none
+
+/-- `Map.SetItem` on the sorted entry list -/
+def mapSet {α : Type} (str? : α → Option String) (mk : String → α) (k : String) (v : α) : List α → List α
+  | kx :: vx :: rest =>
+    match str? kx with
+    | some s => if s == k then kx :: v :: rest else if k < s then mk k :: v :: kx :: vx :: rest else kx :: vx :: mapSet str? mk k v rest
+    | none => kx :: vx :: mapSet str? mk k v rest
+  | _ => [mk k, v]
+
+/-- entry list of a map literal: keys must be strings; later entries overwrite earlier ones -/
+def mkMapItems {α : Type} (str? : α → Option String) (mk : String → α) : List α → List α → Option (List α)
+  | kx :: v :: rest, acc =>
+    match str? kx with
+    | some k => mkMapItems str? mk rest (mapSet str? mk k v acc)
+    | none => none
+  | [], acc => some acc
+  | _, _ => none
 
 abbrev Env := List (String × Nat)
 
@@ -35,6 +95,7 @@ structure St where
   out : List String := []          -- printed lines, most recent first
   depth : Nat := 0                 -- active function calls (the VM has 1024 frames, frame 0 is the main code)
   steps : Nat := 20000           -- remaining budget of loop iterations and calls (0 = give up: `oof`)
+  defers : List (Val × List Val) := []   -- deferred calls of the running activation, most recent first
   deriving Inhabited
 
 /-- outcome of evaluating a node -/
@@ -44,9 +105,25 @@ inductive Sig where
   | brk | cont
   | ret (v : Val)
   | err (cls : String)     -- error class (errz: type/eval/args/...; "panic" = recovered Go panic)
+  | uerr (msg : String)    -- raised by the script: `error(msg)` (class "error", message known)
   | oof                    -- out of fuel
   | unsupported (what : String)
   deriving Repr, Inhabited
+
+/-- class and (when known) message of a raised error -/
+def Sig.errInfo : Sig → Option (String × Option String)
+  | .err c => some (c, none)
+  | .uerr m => some ("error", some m)
+  | _ => none
+
+/-- raise an error value again (`error(e)`) -/
+def raiseOf (cls : String) (msg : Option String) : Sig :=
+  match msg with
+  | some m => if cls == "error" then .uerr m else .err cls
+  | none => .err cls
+
+/-- classes `try` cannot catch: errz fatal errors (eval, args) and recovered Go panics -/
+def uncatchable (cls : String) : Bool := cls == "eval" || cls == "args" || cls == "panic"
 
 def wrap64 (x : Int) : Int := (x + 9223372036854775808) % 18446744073709551616 - 9223372036854775808
 
@@ -55,16 +132,28 @@ def Val.truthy (st : St) : Val → Bool
   | .bool b => b
   | .int i => i != 0
   | .str s => s != ""
-  | .list r => !(st.heap.getD r []).isEmpty
+  | .list r | .set r | .map r => !(st.heap.getD r []).isEmpty
   | .fn _ => true
   | .builtin _ => true
+  | .err _ _ => true
 
 def lookup (env : Env) (x : String) : Option Nat :=
   match env with
   | [] => none
   | (y, c) :: rest => if x == y then some c else lookup rest x
 
-def builtinNames : List String := ["len", "print"]
+def hashKey : Val → Option HKey
+  | .nil => some ("nil", 0, "")
+  | .bool b => some ("bool", if b then 1 else 0, "")
+  | .int i => some ("int", i, "")
+  | .str s => some ("string", 0, s)
+  | _ => none
+
+def Val.str? : Val → Option String
+  | .str s => some s
+  | _ => none
+
+def builtinNames : List String := ["len", "print", "error", "try"]
 
 /-- structural equality as `object.Equals` (lists element-wise; fuel bounds nesting) -/
 def valEq (st : St) : Nat → Val → Val → Bool
@@ -74,12 +163,29 @@ def valEq (st : St) : Nat → Val → Val → Bool
   | _, .str a, .str b => a == b
   | _, .fn a, .fn b => a == b
   | _, .builtin a, .builtin b => a == b
+  | _, .err _ a, .err _ b => a == b          -- `Error.Equals`: same message (both unraised); see `msgUnknown`
   | 0, .list a, .list b => a == b
   | f + 1, .list a, .list b =>
     let la := st.heap.getD a []
     let lb := st.heap.getD b []
     la.length == lb.length && (la.zip lb).all (fun (x, y) => valEq st f x y)
+  -- sets and maps are kept sorted, so equal contents are equal entry lists
+  | 0, .set a, .set b => a == b
+  | f + 1, .set a, .set b =>
+    let la := st.heap.getD a []
+    let lb := st.heap.getD b []
+    la.length == lb.length && (la.zip lb).all (fun (x, y) => valEq st f x y)
+  | 0, .map a, .map b => a == b
+  | f + 1, .map a, .map b =>
+    let la := st.heap.getD a []
+    let lb := st.heap.getD b []
+    la.length == lb.length && (la.zip lb).all (fun (x, y) => valEq st f x y)
   | _, _, _ => false
+
+/-- `k: v` pairs of a map entry list, already rendered -/
+def pairUp : List String → List String
+  | k :: v :: rest => (k ++ ": " ++ v) :: pairUp rest
+  | _ => []
 
 def inspect (st : St) : Nat → Val → String
   | _, .nil => "nil"
@@ -90,20 +196,41 @@ def inspect (st : St) : Nat → Val → String
   | f + 1, .list r => "[" ++ ", ".intercalate ((st.heap.getD r []).map (inspect st f)) ++ "]"
   | _, .fn _ => "func()"
   | _, .builtin n => "builtin(" ++ n ++ ")"
+  | _, .err _ (some m) => "error(\"" ++ m ++ "\")"
+  | _, .err _ none => "error(?)"
+  | 0, .set _ | 0, .map _ => "{...}"
+  | f + 1, .set r => "{" ++ ", ".intercalate ((st.heap.getD r []).map (inspect st f)) ++ "}"
+  | f + 1, .map r => "{" ++ ", ".intercalate (pairUp ((st.heap.getD r []).map (inspect st f))) ++ "}"
 
 /-- text a value contributes to a template string / to print -/
 def display (st : St) (v : Val) : String :=
   match v with
   | .str s => s
+  | .err _ (some m) => m
   | v => inspect st 8 v
 
+/-- the value's text is outside the model: it contains an error made by the runtime, whose message
+    is not modelled (only the class is), or a function / builtin (whose text is the source) -/
+def textUnknown (st : St) : Nat → Val → Bool
+  | _, .err _ none => true
+  | _, .fn _ => true
+  | _, .builtin _ => true
+  | 0, .list _ | 0, .set _ | 0, .map _ => true
+  | f + 1, .list r | f + 1, .set r | f + 1, .map r => (st.heap.getD r []).any (textUnknown st f)
+  | _, _ => false
+
 def cmpInt (a b : Int) : Int := if a == b then 0 else if a > b then 1 else -1
+
+/-- an error value whose message the model does not know (equality of errors compares messages) -/
+def msgUnknown : Val → Bool
+  | .err _ none => true
+  | _ => false
 
 /-- `object.BinaryOp` / `object.Compare` on the modelled types -/
 def binop (st : St) (op : BinOp) (a b : Val) : Sig × St :=
   match op with
-  | .eq => (.val (.bool (valEq st 8 a b)), st)
-  | .ne => (.val (.bool (!valEq st 8 a b)), st)
+  | .eq => if msgUnknown a || msgUnknown b then (.unsupported "equality of runtime-made errors", st) else (.val (.bool (valEq st 8 a b)), st)
+  | .ne => if msgUnknown a || msgUnknown b then (.unsupported "equality of runtime-made errors", st) else (.val (.bool (!valEq st 8 a b)), st)
   | .and => (.val (if a.truthy st then b else a), st)
   | .or => (.val (if a.truthy st then a else b), st)
   | _ =>
@@ -128,6 +255,20 @@ def binop (st : St) (op : BinOp) (a b : Val) : Sig × St :=
       | .le => (.val (.bool (x ≤ y)), st)
       | .gt => (.val (.bool (x > y)), st)
       | .ge => (.val (.bool (x ≥ y)), st)
+      | _ => (.err "type", st)
+    | .bool x, .bool y =>
+      -- `object.Bool.Compare`: false < true
+      match op with
+      | .lt => (.val (.bool (!x && y)), st)
+      | .le => (.val (.bool (!x || y)), st)
+      | .gt => (.val (.bool (x && !y)), st)
+      | .ge => (.val (.bool (x || !y)), st)
+      | _ => (.err "type", st)
+    | .nil, .nil =>
+      -- `object.NilType.Compare`: nil compares equal to nil
+      match op with
+      | .lt | .gt => (.val (.bool false), st)
+      | .le | .ge => (.val (.bool true), st)
       | _ => (.err "type", st)
     | .list x, .list y =>
       match op with
@@ -161,6 +302,72 @@ def resolveSlice (lo hi : Option Int) (size : Int) : Option (Int × Int) :=
       else if start > size - 1 then none
       else if stop > size then none
       else some (start, stop)
+
+/-- what `try` calls: functions and builtins (`*object.Function`, `object.Callable`) -/
+def callable : Val → Bool
+  | .fn _ | .builtin _ => true
+  | _ => false
+
+/-- the arguments `try` passes to a callable argument: the last caught error (if any) — to a
+    function only if it declares at least one parameter, to a builtin always -/
+def tryCallArgs (st : St) (a : Val) (last : Option Val) : List Val :=
+  match a with
+  | .fn id =>
+    match st.funcs[id]? with
+    | some clo => if clo.params.length > 0 then last.toList else []
+    | none => []
+  | _ => last.toList
+
+/-- `x in c` (`Container.Contains`); `none` = a container the model does not cover -/
+def containsVal (st : St) (c x : Val) : Option Bool :=
+  match c with
+  | .list r => some ((st.heap.getD r []).any (fun y => valEq st 8 y x))
+  | .set r =>
+    match hashKey x with
+    | some k => some ((st.heap.getD r []).any (fun y => hashKey y == some k))
+    | none => if (match x with | .list _ | .set _ | .map _ | .fn _ | .builtin _ => true | _ => false) then some false else none
+  | .map r =>
+    match x with
+    | .str k => some ((mapGet Val.str? k (st.heap.getD r [])).isSome)
+    | _ => some false
+  | _ => none
+
+/-- `obj[idx]` (`Container.GetItem`): lists and strings by int (strings by rune, the result is a
+    one-rune string), maps by string key; a missing key / an index out of range is a catchable error -/
+def getItem (st : St) (obj idx : Val) : Sig :=
+  match obj, idx with
+  | .list r, .int k =>
+    let l := st.heap.getD r []
+    match resolveIndex k l.length with
+    | some j => .val (l.getD j.toNat .nil)
+    | none => .err "index"
+  | .list _, _ => .err "type"
+  | .str s, .int k =>
+    let cs := s.toList
+    match resolveIndex k cs.length with
+    | some j => .val (.str (String.ofList [cs.getD j.toNat ' ']))
+    | none => .err "index"
+  | .str _, _ => .err "type"
+  | .map r, .str k =>
+    match mapGet Val.str? k (st.heap.getD r []) with
+    | some v => .val v
+    | none => .err "index"
+  | .map _, _ => .err "type"
+  | _, _ => .unsupported "index on this type"
+
+/-- `obj[idx] = nv` (`Container.SetItem`) -/
+def setItem (st : St) (obj idx nv : Val) : Sig × St :=
+  match obj, idx with
+  | .list r, .int k =>
+    let l := st.heap.getD r []
+    match resolveIndex k l.length with
+    | some j => (.unit, { st with heap := st.heap.setIfInBounds r (l.set j.toNat nv) })
+    | none => (.err "index", st)
+  | .list _, _ => (.err "type", st)
+  | .map r, .str k => (.unit, { st with heap := st.heap.setIfInBounds r (mapSet Val.str? Val.str k nv (st.heap.getD r [])) })
+  | .map _, _ => (.err "type", st)
+  | .str _, _ => (.err "type", st)
+  | _, _ => (.unsupported "item assignment on this type", st)
 
 def alloc (st : St) (v : Val) : Nat × St := (st.cells.size, { st with cells := st.cells.push v })
 
@@ -230,16 +437,20 @@ def evalE : Nat → N → Env → St → Sig × St
       match evalE f x env st with
       | (.val xv, st) =>
         match evalE f c env st with
-        | (.val (.list r), st) => (.val (.bool ((st.heap.getD r []).any (fun y => valEq st 8 y xv))), st)
-        | (.val _, st) => (.unsupported "in on a non-list", st)
+        | (.val cv, st) =>
+          match containsVal st cv xv with
+          | some b => (.val (.bool b), st)
+          | none => (.unsupported "in on this type", st)
         | other => other
       | other => other
     | .notin x c =>
       match evalE f x env st with
       | (.val xv, st) =>
         match evalE f c env st with
-        | (.val (.list r), st) => (.val (.bool (!(st.heap.getD r []).any (fun y => valEq st 8 y xv))), st)
-        | (.val _, st) => (.unsupported "not in on a non-list", st)
+        | (.val cv, st) =>
+          match containsVal st cv xv with
+          | some b => (.val (.bool (!b)), st)
+          | none => (.unsupported "not in on this type", st)
         | other => other
       | other => other
     | .call fe args =>
@@ -264,28 +475,34 @@ def evalE : Nat → N → Env → St → Sig × St
       | other => other
     | .index e i =>
       match evalE f e env st with
-      | (.val (.list r), st) =>
+      | (.val ov, st) =>
         match evalE f i env st with
-        | (.val (.int k), st) =>
-          let l := st.heap.getD r []
-          match resolveIndex k l.length with
-          | some j => (.val (l.getD j.toNat .nil), st)
-          | none => (.err "index", st)
-        | (.val _, st) => (.err "type", st)
+        | (.val iv, st) => (getItem st ov iv, st)
         | other => other
-      | (.val _, st) => (.unsupported "index on a non-list", st)
       | other => other
     | .slice e lo hi =>
+      let bound (b : N) (st : St) : Except Sig (Option Int) × St :=
+        match b with
+        | .none_ => (.ok none, st)
+        | b =>
+          match evalE f b env st with
+          | (.val (.int k), st) => (.ok (some k), st)
+          | (.val _, st) => (.error (.err "type"), st)
+          | (s, st) => (.error s, st)
       match evalE f e env st with
+      | (.val (.str s), st) =>
+        -- `String.GetSlice`: by rune
+        match bound lo st with
+        | (.ok lo, st) =>
+          match bound hi st with
+          | (.ok hi, st) =>
+            let cs := s.toList
+            match resolveSlice lo hi cs.length with
+            | some (a, b) => (.val (.str (String.ofList ((cs.drop a.toNat).take (b - a).toNat))), st)
+            | none => (.err "index", st)
+          | (.error s, st) => (s, st)
+        | (.error s, st) => (s, st)
       | (.val (.list r), st) =>
-        let bound (b : N) (st : St) : Except Sig (Option Int) × St :=
-          match b with
-          | .none_ => (.ok none, st)
-          | b =>
-            match evalE f b env st with
-            | (.val (.int k), st) => (.ok (some k), st)
-            | (.val _, st) => (.error (.err "type"), st)
-            | (s, st) => (.error s, st)
         match bound lo st with
         | (.ok lo, st) =>
           match bound hi st with
@@ -297,15 +514,32 @@ def evalE : Nat → N → Env → St → Sig × St
             | none => (.err "index", st)
           | (.error s, st) => (s, st)
         | (.error s, st) => (s, st)
-      | (.val _, st) => (.unsupported "slice of a non-list", st)
+      | (.val _, st) => (.unsupported "slice of this type", st)
       | other => other
     | .list items =>
       match evalArgs f items env st with
       | (.ok vs, st) => (.val (.list st.heap.size), { st with heap := st.heap.push vs })
       | (.error s, st) => (s, st)
+    | .set items =>
+      match evalArgs f items env st with
+      | (.ok vs, st) =>
+        match mkSetItems hashKey vs with
+        | some l => (.val (.set st.heap.size), { st with heap := st.heap.push l })
+        | none => (.err "type", st)        -- an unhashable item (list, set, map, function, …)
+      | (.error s, st) => (s, st)
+    | .map entries =>
+      -- key, value, key, value, … evaluated in the order written
+      match evalArgs f entries env st with
+      | (.ok vs, st) =>
+        match mkMapItems Val.str? Val.str vs [] with
+        | some l => (.val (.map st.heap.size), { st with heap := st.heap.push l })
+        | none => (.unsupported "map key that is not a string", st)
+      | (.error s, st) => (s, st)
     | .tmpl parts =>
       match evalArgs f parts env st with
-      | (.ok vs, st) => (.val (.str (String.join (vs.map (display st)))), st)
+      | (.ok vs, st) =>
+        if vs.any (textUnknown st 8) then (.unsupported "text of a runtime-made error or of a function", st)
+        else (.val (.str (String.join (vs.map (display st)))), st)
       | (.error s, st) => (s, st)
     | .func name params body =>
       -- anonymous function value (named ones are handled as statements by `execS`)
@@ -313,6 +547,15 @@ def evalE : Nat → N → Env → St → Sig × St
       | (.ok ps, st) =>
         (.val (.fn st.funcs.size), { st with funcs := st.funcs.push { name := name, params := ps, body := body, env := env } })
       | (.error s, st) => (s, st)
+    | .pipe stages =>
+      -- `a | f | g(1)`: the value of `a` becomes the FIRST argument of each following stage
+      match stages with
+      | .cons _ .nilL => (.err "compile", st)
+      | .cons first rest =>
+        match evalE f first env st with
+        | (.val x, st) => evalPipe f x rest env st
+        | other => other
+      | _ => (.err "compile", st)
     | .if_ c t e =>
       match evalE f c env st with
       | (.val v, st) =>
@@ -343,6 +586,34 @@ def evalArgs : Nat → N → Env → St → Except Sig (List Val) × St
         | other => other
       | (s, st) => (.error s, st)
     | _ => (.ok [], st)
+
+/-- the stages of a pipe after the first: `x | f(a, b)` calls `f(x, a, b)` (callee, then the
+    written arguments, evaluated left to right, then the call); `x | e` for any other expression
+    calls the value of `e` with `x` -/
+def evalPipe : Nat → Val → N → Env → St → Sig × St
+  | 0, _, _, _, st => (.oof, st)
+  | f + 1, x, stages, env, st =>
+    match stages with
+    | .cons (.call fe args) rest =>
+      match evalE f fe env st with
+      | (.val fv, st) =>
+        match evalArgs f args env st with
+        | (.ok vs, st) =>
+          match callVal f fv (x :: vs) st with
+          | (.val y, st) => evalPipe f y rest env st
+          | other => other
+        | (.error s, st) => (s, st)
+      | other => other
+    | .cons (.mcall _ _ _) _ => (.unsupported "method call as a pipe stage", st)
+    | .cons (.pipe _) _ => (.err "compile", st)
+    | .cons e rest =>
+      match evalE f e env st with
+      | (.val fv, st) =>
+        match callVal f fv [x] st with
+        | (.val y, st) => evalPipe f y rest env st
+        | other => other
+      | other => other
+    | _ => (.val x, st)
 
 def evalParams : Nat → N → Env → St → Except Sig (List (String × Option Val)) × St
   | 0, _, _, st => (.error .oof, st)
@@ -441,25 +712,39 @@ def execS : Nat → N → Env → St → Sig × Env × St
         | (.val r, st) => (.unit, env, { st with cells := st.cells.setIfInBounds c r })
         | (sg, st) => (sg, env, st)
     | .setitem op obj i v =>
-      match evalE f v env st with
-      | (.val rhs, st) =>
-        match evalE f obj env st with
-        | (.val (.list r), st) =>
-          match evalE f i env st with
-          | (.val (.int k), st) =>
-            let l := st.heap.getD r []
-            match resolveIndex k l.length with
-            | some j =>
-              match applyAssign st op (l.getD j.toNat .nil) rhs with
-              | (.val nv, st) =>
-                (.unit, env, { st with heap := st.heap.setIfInBounds r ((st.heap.getD r []).set j.toNat nv) })
+      if op == .set then
+        -- plain assignment: right-hand side, then the target's container and index, then the store
+        match evalE f v env st with
+        | (.val rhs, st) =>
+          match evalE f obj env st with
+          | (.val ov, st) =>
+            match evalE f i env st with
+            | (.val iv, st) =>
+              match setItem st ov iv rhs with
               | (sg, st) => (sg, env, st)
-            | none => (.err "index", env, st)
-          | (.val _, st) => (.err "type", env, st)
+            | (sg, st) => (sg, env, st)
           | (sg, st) => (sg, env, st)
-        | (.val _, st) => (.unsupported "item assignment on a non-list", env, st)
         | (sg, st) => (sg, env, st)
-      | (sg, st) => (sg, env, st)
+      else
+        -- compound assignment `a[i] op= v`, left to right like `x op= v`: container, index (once),
+        -- the current item, then the right-hand side, then the store
+        match evalE f obj env st with
+        | (.val ov, st) =>
+          match evalE f i env st with
+          | (.val iv, st) =>
+            match getItem st ov iv with
+            | .val cur =>
+              match evalE f v env st with
+              | (.val rhs, st) =>
+                match applyAssign st op cur rhs with
+                | (.val nv, st) =>
+                  match setItem st ov iv nv with
+                  | (sg, st) => (sg, env, st)
+                | (sg, st) => (sg, env, st)
+              | (sg, st) => (sg, env, st)
+            | sg => (sg, env, st)
+          | (sg, st) => (sg, env, st)
+        | (sg, st) => (sg, env, st)
     | .multi names e =>
       match evalE f e env st with
       | (.val (.list r), st) =>
@@ -494,6 +779,18 @@ def execS : Nat → N → Env → St → Sig × Env × St
     | .block _ =>
       match execBlock f s env st with
       | (sg, st) => (sg, env, st)
+    | .defer_ (.call fe args) =>
+      -- callee and arguments are evaluated now; the call is recorded in the running activation
+      if st.depth == 0 then (.err "compile", env, st)      -- `defer` outside of a function
+      else
+        match evalE f fe env st with
+        | (.val fv, st) =>
+          match evalArgs f args env st with
+          | (.ok vs, st) => (.unit, env, { st with defers := (fv, vs) :: st.defers })
+          | (.error sg, st) => (sg, env, st)
+        | (sg, st) => (sg, env, st)
+    | .defer_ _ =>
+      if st.depth == 0 then (.err "compile", env, st) else (.unsupported "deferred method call", env, st)
     | .break_ => (.brk, env, st)
     | .continue_ => (.cont, env, st)
     | .return_ e =>
@@ -599,10 +896,23 @@ def callVal : Nat → Val → List Val → St → Sig × St
       match args with
       | [.str s] => (.val (.int s.length), st)
       | [.list r] => (.val (.int (st.heap.getD r []).length), st)
+      | [.set r] => (.val (.int (st.heap.getD r []).length), st)
+      | [.map r] => (.val (.int ((st.heap.getD r []).length / 2)), st)
       | [_] => (.err "type", st)
       | _ => (.err "args", st)
     | .builtin "print" =>
-      (.val .nil, { st with out := " ".intercalate (args.map (display st)) :: st.out })
+      if args.any (textUnknown st 8) then (.unsupported "text of a runtime-made error or of a function", st)
+      else (.val .nil, { st with out := " ".intercalate (args.map (display st)) :: st.out })
+    | .builtin "error" =>
+      -- `builtins.Error`: raises; an error value is raised again as it is
+      match args with
+      | [] => (.err "args", st)
+      | .err c m :: _ => (raiseOf c m, st)
+      | [.str s] => if s.contains '%' then (.unsupported "error() with a format string", st) else (.uerr s, st)
+      | .str _ :: _ => (.unsupported "error() with format arguments", st)
+      | _ => (.err "type", st)
+    | .builtin "try" =>
+      if args.isEmpty || args.length > 64 then (.err "args", st) else tryArgs f args none st
     | .builtin n => (.unsupported ("builtin " ++ n), st)
     | .fn id =>
       match st.funcs[id]? with
@@ -614,7 +924,12 @@ def callVal : Nat → Val → List Val → St → Sig × St
           -- used up; where exactly depends on the operands pending in each frame, which the
           -- reference semantics does not track, so it makes no claim about such programs
         else
-          let st := { st with depth := st.depth + 1 }
+          let saved := st.defers
+          let st := { st with depth := st.depth + 1, defers := [] }
+          -- leave the activation: run its deferred calls on the outcome, restore the caller's
+          let leave (out : Sig) (st : St) : Sig × St :=
+            match runDefers f st.defers out { st with defers := [] } with
+            | (sg, st) => (sg, { st with depth := st.depth - 1, defers := saved })
           -- bind parameters: given arguments, then defaults
           let rec bind (ps : List (String × Option Val)) (as : List Val) (env : Env) (st : St) : Option (Env × St) :=
             match ps, as with
@@ -628,13 +943,47 @@ def callVal : Nat → Val → List Val → St → Sig × St
             match clo.body with
             | .block stmts =>
               match execStmts f stmts env st with
-              | (.ret v, _, st) => (.val v, { st with depth := st.depth - 1 })
-              | (.val v, _, st) => (.val v, { st with depth := st.depth - 1 })
-              | (.unit, _, st) => (.val .nil, { st with depth := st.depth - 1 })
+              | (.ret v, _, st) => leave (.val v) st
+              | (.val v, _, st) => leave (.val v) st
+              | (.unit, _, st) => leave (.val .nil) st
               | (.brk, _, st) | (.cont, _, st) => (.err "compile", st)
-              | (sg, _, st) => (sg, { st with depth := st.depth - 1 })
+              | (.err c, _, st) => leave (.err c) st
+              | (.uerr m, _, st) => leave (.uerr m) st
+              | (sg, _, st) => (sg, { st with depth := st.depth - 1, defers := saved })
             | _ => (.unsupported "function body", st)
     | _ => (.err "type", st)
+
+/-- the deferred calls of an activation, most recent first, run on its outcome `out` (a value or
+    a raised error); the result is the activation's final outcome -/
+def runDefers : Nat → List (Val × List Val) → Sig → St → Sig × St
+  | 0, _, _, st => (.oof, st)
+  | _ + 1, [], out, st => (out, st)
+  | f + 1, (fv, args) :: rest, out, st =>
+    match callVal f fv args st with
+    | (.val _, st) => runDefers f rest out st          -- the result is discarded
+    | (sg, st) =>
+      match sg.errInfo with
+      | some (cls, _) =>
+        if cls == "panic" then (sg, st)                -- a Go panic in a deferred call: the rest is abandoned
+        else if out.errInfo.map (·.1) == some "panic" then runDefers f rest out st   -- nothing replaces a panic
+        else runDefers f rest sg st                    -- the error replaces the outcome
+      | none => (sg, st)                               -- out of fuel / outside the model
+
+/-- `builtins.Try`: the arguments in order; a function (or builtin) is called — with the last
+    caught error if it declares a parameter (a builtin: always) —, any other value is the result;
+    an error that `try` can catch makes it go on with the next argument; `nil` when none is left -/
+def tryArgs : Nat → List Val → Option Val → St → Sig × St
+  | 0, _, _, st => (.oof, st)
+  | _ + 1, [], _, st => (.val .nil, st)
+  | f + 1, a :: rest, last, st =>
+    if callable a then
+      match callVal f a (tryCallArgs st a last) st with
+      | (.val v, st) => (.val v, st)
+      | (sg, st) =>
+        match sg.errInfo with
+        | some (cls, msg) => if uncatchable cls then (sg, st) else tryArgs f rest (some (.err cls msg)) st
+        | none => (sg, st)
+    else (.val a, st)
 
 end
 
